@@ -142,6 +142,14 @@ func (p *Provider) Create(ctx context.Context, nc *v1.NodeClaim) (*v1.NodeClaim,
 	case "NCNR":
 		p.emit(ctx, "Create", nc.Name, string(nc.UID), "NCNR", "")
 		return nil, cloudprovider.NewNodeClassNotReadyError(fmt.Errorf("injected nodeclass not ready"))
+	case "ICEw": // a capacity error wrapped in a CreateError, as real providers return it
+		p.emit(ctx, "Create", nc.Name, string(nc.UID), "ICE", "")
+		return nil, cloudprovider.NewCreateError(cloudprovider.NewInsufficientCapacityError(fmt.Errorf("injected insufficient capacity")),
+			"InsufficientCapacity", "injected insufficient capacity")
+	case "NCNRw":
+		p.emit(ctx, "Create", nc.Name, string(nc.UID), "NCNR", "")
+		return nil, cloudprovider.NewCreateError(cloudprovider.NewNodeClassNotReadyError(fmt.Errorf("injected nodeclass not ready")),
+			"NodeClassNotReady", "injected nodeclass not ready")
 	case "err":
 		p.emit(ctx, "Create", nc.Name, string(nc.UID), "Error", "")
 		return nil, fmt.Errorf("injected provider create error")
